@@ -45,6 +45,7 @@ theorem ending_cases (t : TermX) (flt : Bytes → SrcFault) (evs : List Ev) :
     (sessionX t flt evs).base.ending = .quit ∨ (sessionX t flt evs).base.ending = .eof ∨
     (sessionX t flt evs).base.ending = .readError ∨ (sessionX t flt evs).base.ending = .sendError := by
   have := session_never_panics t.toTerm evs
+  have h3 : (session t.toTerm evs).ending ≠ .tlsFail := (loop_endings t.toTerm St.init inv_init evs).2.2
   simp only [sessionX]
   cases h : (session t.toTerm evs).ending <;> simp_all
 
